@@ -330,6 +330,7 @@ class Worker:
         self.violations: List[Dict[str, Any]] = []
         self.inconclusive: List[str] = []
         self.max_samples = max_samples
+        self.records: List[Any] = []   # free-form per-case records for the parent (not merged automatically)
 
     def count(self, name, n=1):
         self.counters[name] = self.counters.get(name, 0) + n
@@ -356,7 +357,8 @@ class Worker:
     def summary(self) -> Dict[str, Any]:
         return {"evaluations": self.evaluations, "counters": self.counters,
                 "distinct": sorted(map(str, self._distinct)), "samples": _jsonable(self.samples),
-                "violations": self.violations, "inconclusive": self.inconclusive}
+                "violations": self.violations, "inconclusive": self.inconclusive,
+                "records": _jsonable(self.records)}
 
     def dump(self, path: str):
         tmp = path + ".tmp"
